@@ -50,8 +50,12 @@ Lemma flag_ttlget_guarded : cache_ttlget_negative_fill_guarded = true. Proof. re
 Lemma nth_error_Some_lt {T} (l : list T) n x : nth_error l n = Some x -> (n < length l)%nat.
 Proof. intros H. apply nth_error_Some. congruence. Qed.
 
-Definition fresh (hist : list (option N)) (c : N) (e : option N) : Prop :=
-  exists j, (N.to_nat c <= j)%nat /\ nth_error (rev hist) j = Some e.
+(* r is what version ver shows at time now: its content, or "not found" once it has expired *)
+Definition shows (now : N) (ver : version) (r : option N) : Prop :=
+  fst ver = r \/ (r = None /\ s_expired now (snd ver) = true).
+
+Definition fresh (hist : list version) (now c : N) (e : option N) : Prop :=
+  exists j ver, (N.to_nat c <= j)%nat /\ nth_error (rev hist) j = Some ver /\ shows now ver e.
 
 Lemma on_eqb_eq a b : on_eqb a b = true <-> a = b.
 Proof.
@@ -60,49 +64,105 @@ Proof.
   - inversion H. apply N.eqb_refl.
 Qed.
 
-Lemma fresh_enough_spec hist c e : fresh_enough hist c e = true <-> fresh hist c e.
+Lemma shows_spec now ver r :
+  (on_eqb (fst ver) r || (match r with None => s_expired now (snd ver) | Some _ => false end)) = true <-> shows now ver r.
+Proof.
+  unfold shows. rewrite orb_true_iff, on_eqb_eq. split; intros [H|H]; auto.
+  - destruct r; [discriminate|]. right. auto.
+  - destruct H as [-> H]. right. exact H.
+Qed.
+
+Lemma fresh_enough_spec hist now c e : fresh_enough hist now c e = true <-> fresh hist now c e.
 Proof.
   unfold fresh_enough, fresh. rewrite existsb_exists. split.
-  - intros [j [Hin H]]. apply andb_prop in H. destruct H as [H1 H2]. exists j. split; [lia|].
-    destruct (nth_error (rev hist) j) as [x|]; [|discriminate]. apply on_eqb_eq in H2. congruence.
-  - intros [j [H1 H2]]. exists j. split.
+  - intros [j [Hin H]]. apply andb_prop in H. destruct H as [H1 H2].
+    destruct (nth_error (rev hist) j) as [x|] eqn:En; [|discriminate]. exists j, x. split; [lia|].
+    split; [exact En|]. apply shows_spec. exact H2.
+  - intros [j [ver [H1 [H2 H3]]]]. exists j. split.
     + apply in_seq. split; [lia|]. apply nth_error_Some_lt in H2. rewrite rev_length in H2. lia.
-    + rewrite H2. apply andb_true_intro. split; [apply N.leb_le; lia|apply on_eqb_eq; reflexivity].
+    + rewrite H2. apply andb_true_intro. split; [apply N.leb_le; lia|apply shows_spec; exact H3].
 Qed.
 
-Lemma fresh_cons x hist c e : fresh hist c e -> fresh (x :: hist) c e.
+Lemma nth_rev_cons {T} (x : T) hist j y : nth_error (rev hist) j = Some y -> nth_error (rev (x :: hist)) j = Some y.
+Proof. intros H. cbn [rev]. rewrite nth_error_app1; auto. apply nth_error_Some_lt in H. exact H. Qed.
+
+Lemma nth_rev_head {T} (x : T) hist : nth_error (rev (x :: hist)) (length hist) = Some x.
 Proof.
-  intros [j [H1 H2]]. exists j. split; auto. cbn [rev]. rewrite nth_error_app1; auto.
-  apply nth_error_Some_lt in H2. exact H2.
+  cbn [rev]. rewrite nth_error_app2 by (rewrite rev_length; lia). rewrite rev_length, Nat.sub_diag. reflexivity.
 Qed.
 
-Lemma fresh_le hist c c' e : c' <= c -> fresh hist c e -> fresh hist c' e.
-Proof. intros L [j [H1 H2]]. exists j. split; [lia|exact H2]. Qed.
+Lemma fresh_cons x hist now c e : fresh hist now c e -> fresh (x :: hist) now c e.
+Proof. intros [j [ver [H1 [H2 H3]]]]. exists j, ver. split; auto. split; auto. apply nth_rev_cons. exact H2. Qed.
 
-Lemma fresh_head x hist c : (N.to_nat c <= length hist)%nat -> fresh (x :: hist) c x.
-Proof.
-  intros L. exists (length hist). split; [lia|]. cbn [rev]. rewrite nth_error_app2 by (rewrite rev_length; lia).
-  rewrite rev_length, Nat.sub_diag. reflexivity.
-Qed.
+Lemma fresh_le hist now c c' e : c' <= c -> fresh hist now c e -> fresh hist now c' e.
+Proof. intros L [j [ver [H1 H2]]]. exists j, ver. split; [lia|exact H2]. Qed.
+
+Lemma expired_mono now now' x : now <= now' -> s_expired now x = true -> s_expired now' x = true.
+Proof. unfold s_expired. rewrite !andb_true_iff, !N.ltb_lt, !N.leb_le. lia. Qed.
+
+Lemma shows_mono now now' ver e : now <= now' -> shows now ver e -> shows now' ver e.
+Proof. intros L [H|[H1 H2]]; [left; exact H|right]. split; auto. eapply expired_mono; eauto. Qed.
+
+Lemma fresh_mono hist now now' c e : now <= now' -> fresh hist now c e -> fresh hist now' c e.
+Proof. intros L [j [ver [H1 [H2 H3]]]]. exists j, ver. split; auto. split; auto. eapply shows_mono; eauto. Qed.
+
+Lemma shows_live now ver : shows now ver (live now ver).
+Proof. unfold shows, live. destruct (s_expired now (snd ver)) eqn:E; auto. Qed.
+
+Lemma fresh_head x hist now c e : (N.to_nat c <= length hist)%nat -> shows now x e -> fresh (x :: hist) now c e.
+Proof. intros L H. exists (length hist), x. split; [lia|]. split; [apply nth_rev_head|exact H]. Qed.
 
 (* ---------- the invariant ---------- *)
 
 Lemma flag_delete_marker : cache_delete_leaves_marker = true. Proof. reflexivity. Qed.
 Lemma flag_big_marked : cache_big_values_marked = true. Proof. reflexivity. Qed.
 
+(* what a cache entry stands for: "not found" is what some version not older than the last completed write
+   shows; a cached value is the content of such a version, and a cached expiry is not earlier than the row's *)
+Definition entry_inv (hist : list version) (now completed : N) (e : sentry) : Prop :=
+  match e with
+  | ENeg => fresh hist now completed None
+  | EVal v x => exists j ver, (N.to_nat completed <= j)%nat /\ nth_error (rev hist) j = Some ver /\
+                              fst ver = Some v /\ (x = 0 \/ (0 < snd ver /\ snd ver <= x))
+  | EBig => True
+  end.
+
+Lemma entry_inv_cons x hist now c e : entry_inv hist now c e -> entry_inv (x :: hist) now c e.
+Proof.
+  destruct e as [|v ex|]; cbn; auto.
+  - apply fresh_cons.
+  - intros [j [ver [H1 [H2 H3]]]]. exists j, ver. split; auto. split; auto. apply nth_rev_cons. exact H2.
+Qed.
+
+Lemma entry_inv_mono hist now now' c e : now <= now' -> entry_inv hist now c e -> entry_inv hist now' c e.
+Proof. intros L. destruct e as [|v ex|]; cbn; auto. apply fresh_mono. exact L. Qed.
+
+(* what a read of the entry returns is fresh *)
+Lemma entry_get_fresh hist now c v x : entry_inv hist now c (EVal v x) -> fresh hist now c (Some v).
+Proof. intros [j [ver [H1 [H2 [H3 _]]]]]. exists j, ver. split; auto. split; auto. left. exact H3. Qed.
+
+Lemma entry_expired_fresh hist now c v x : entry_inv hist now c (EVal v x) -> s_expired now x = true ->
+  fresh hist now c None.
+Proof.
+  intros [j [ver [H1 [H2 [H3 H4]]]]] E. exists j, ver. split; auto. split; auto. right. split; auto.
+  unfold s_expired in *. rewrite andb_true_iff, N.ltb_lt, N.leb_le in *. lia.
+Qed.
+
 Definition reader_ok (s : sch) (starts : list (nat * N)) (i : nat) (r : rpc * list rop) : Prop :=
   match fst r with
   | RIdle => entry_of starts i = None
   | RMissed _ => exists c, entry_of starts i = Some (i, c) /\ c <= s_completed s
-  | RGot _ e => exists c, entry_of starts i = Some (i, c) /\ fresh (s_hist s) c e
+  | RGot _ e => exists c, entry_of starts i = Some (i, c) /\ fresh (s_hist s) (s_now s) c e
   end.
 
 Record Inv (s : sch) (starts : list (nat * N)) : Prop := mkInv {
   I_hist : exists tl, s_hist s = s_store s :: tl /\ length tl = N.to_nat (s_started s);
   I_le : s_completed s <= s_started s;
-  I_cache : forall e r, s_cache s = Some e -> entry_answer e = Some r -> fresh (s_hist s) (s_completed s) r;
+  I_cache : forall e, s_cache s = Some e -> entry_inv (s_hist s) (s_now s) (s_completed s) e;
   I_nocache : s_cache s = None -> s_completed s = 0;
-  I_wpc : forall w, s_wpc s = Some w -> s_store s = wcontent w;
+  I_wpc : forall w, s_wpc s = Some w ->
+          fst (s_store s) = wcontent w /\
+          (if wttl w then 0 < snd (s_store s) /\ snd (s_store s) <= s_now s + 1 else snd (s_store s) = 0);
   I_readers : forall i r, nth_error (s_readers s) i = Some r -> reader_ok s starts i r
 }.
 
@@ -113,93 +173,133 @@ Proof.
   - intros i r H. rewrite nth_error_map in H. destruct (nth_error readers i); inversion H; subst. cbn. reflexivity.
 Qed.
 
-(* every schedule the model can run satisfies the oracle (the oracle's own bookkeeping of
-   the content history and of the remaining program coincides with the model's) *)
-Theorem no_stale_marker_proved : forall ps s starts obs wmid,
-  Inv s starts -> sch_run_gen true true s ps = Some obs -> no_stale (s_hist s) (s_wprog s) wmid starts ps obs = true.
+(* every schedule the model can run satisfies the oracle (the oracle's own bookkeeping of the versions, of
+   the clock and of the remaining program coincides with the model's), if an expired entry leaves a marker
+   [xm = true] - or, for the entry-dropping variant, as long as the clock does not advance *)
+Theorem no_stale_gen_proved xm : forall ps s starts obs wmid,
+  Inv s starts -> (xm = true \/ (s_now s = 0 /\ ~ In PC ps)) ->
+  sch_run_gen true true xm s ps = Some obs -> no_stale (s_hist s) (s_now s) (s_wprog s) wmid starts ps obs = true.
 Proof.
-  induction ps as [|p ps IH]; intros s starts obs wmid HI Hrun; cbn in Hrun.
+  induction ps as [|p ps IH]; intros s starts obs wmid HI HX Hrun; cbn in Hrun.
   - inversion Hrun; subst. reflexivity.
-  - destruct (sch_step_gen true true s p) as [[s' o]|] eqn:Es; [|discriminate].
-    destruct (sch_run_gen true true s' ps) as [obs'|] eqn:Er; [|discriminate]. cbn in Hrun. inversion Hrun; subst obs. clear Hrun.
+  - destruct (sch_step_gen true true xm s p) as [[s' o]|] eqn:Es; [|discriminate].
+    destruct (sch_run_gen true true xm s' ps) as [obs'|] eqn:Er; [|discriminate]. cbn in Hrun. inversion Hrun; subst obs. clear Hrun.
     destruct HI as [H1 H2 H3 H4 H5b H6]. destruct H1 as (tl & Hh & Hlen).
-    destruct p as [|i]; cbn [sch_step_gen] in Es.
+    assert (HX' : forall s1, s_now s1 = s_now s -> p <> PC -> xm = true \/ (s_now s1 = 0 /\ ~ In PC ps)).
+    { intros s1 En _. destruct HX as [HX|[HX1 HX2]]; [left; exact HX|right]. split; [congruence|]. intros Hi. apply HX2. right. exact Hi. }
+    destruct p as [|i|]; cbn [sch_step_gen] in Es.
     + (* writer *)
       destruct (s_wpc s) as [w|] eqn:Ew.
       * (* cache step *)
         inversion Es; subst s' o. clear Es. cbn [no_stale].
-        pose proof (H5b w eq_refl) as Hst.
-        match type of Er with sch_run_gen _ _ ?s' _ = _ => specialize (IH s' starts obs' false) end.
-        cbn [s_hist s_wprog] in IH. apply IH; [|exact Er].
-        assert (Hfr : fresh (s_hist s) (s_started s) (wcontent w)).
-        { rewrite Hh, Hst. apply fresh_head. lia. }
-        constructor; cbn [s_hist s_store s_cache s_wpc s_wprog s_completed s_started s_readers].
+        destruct (H5b w eq_refl) as [Hst Hex].
+        match type of Er with sch_run_gen _ _ _ ?s' _ = _ => specialize (IH s' starts obs' false) end.
+        cbn [s_hist s_wprog s_now] in IH. apply IH; [|apply HX'; [reflexivity|discriminate]|exact Er].
+        constructor; cbn [s_hist s_store s_cache s_wpc s_wprog s_completed s_started s_readers s_now].
         -- exists tl. split; auto.
         -- lia.
-        -- intros e r E A. unfold set_val in E. destruct (wcontent w) as [v|]; [destruct (big_val v)|];
-             inversion E; subst e; cbn in A; inversion A; subst r; exact Hfr.
+        -- intros e E. unfold set_val in E.
+           destruct (wcontent w) as [v|] eqn:Ec; [destruct (big_val v)|]; inversion E; subst e; cbn [entry_inv]; auto.
+           ++ exists (length tl), (s_store s). split; [lia|]. split; [rewrite Hh; apply nth_rev_head|]. split; [exact Hst|].
+              unfold wexp. destruct (wttl w); [right; lia|left; reflexivity].
+           ++ rewrite Hh. apply fresh_head; [lia|]. left. exact Hst.
         -- unfold set_val. destruct (wcontent w) as [v|]; [destruct (big_val v)|]; discriminate.
         -- intros w' E; discriminate.
-        -- intros j r Hr. specialize (H6 j r Hr). unfold reader_ok in *. cbn [s_completed s_hist].
+        -- intros j r Hr. specialize (H6 j r Hr). unfold reader_ok in *. cbn [s_completed s_hist s_now].
            destruct (fst r); auto. destruct H6 as [c [E L]]. exists c. split; auto. lia.
       * destruct (s_wprog s) as [|w rest] eqn:Ep; [discriminate|]. inversion Es; subst s' o. clear Es. cbn [no_stale].
-        match type of Er with sch_run_gen _ _ ?s' _ = _ => specialize (IH s' starts obs' true) end. cbn [s_hist s_wprog] in IH. apply IH; [|exact Er].
-        constructor; cbn [s_hist s_store s_cache s_wpc s_wprog s_completed s_started s_readers].
+        match type of Er with sch_run_gen _ _ _ ?s' _ = _ => specialize (IH s' starts obs' true) end.
+        cbn [s_hist s_wprog s_now] in IH. apply IH; [|apply HX'; [reflexivity|discriminate]|exact Er].
+        constructor; cbn [s_hist s_store s_cache s_wpc s_wprog s_completed s_started s_readers s_now].
         -- exists (s_hist s). split; auto. rewrite Hh. cbn [length]. lia.
         -- lia.
-        -- intros e r E A. apply fresh_cons. eapply H3; eauto.
+        -- intros e E. apply entry_inv_cons. apply H3. exact E.
         -- exact H4.
-        -- intros w' E; inversion E; subst; auto.
-        -- intros j r Hr. specialize (H6 j r Hr). unfold reader_ok in *. cbn [s_completed s_hist].
+        -- intros w' E; inversion E; subst w'. cbn [fst snd]. split; [reflexivity|].
+           unfold wexp. destruct (wttl w); lia.
+        -- intros j r Hr. specialize (H6 j r Hr). unfold reader_ok in *. cbn [s_completed s_hist s_now].
            destruct (fst r); auto. destruct H6 as [c [E L]]. exists c. split; auto. apply fresh_cons. exact L.
     + (* reader i *)
       destruct (nth_error (s_readers s) i) as [[pc rest]|] eqn:En; [|discriminate].
       pose proof (H6 i _ En) as Hi. unfold reader_ok in Hi. cbn [fst] in Hi.
-      assert (Hframe : forall starts' rs', 
+      assert (Hframe : forall starts' rs',
                  (forall j r, nth_error rs' j = Some r -> reader_ok s starts' j r) ->
                  Inv (set_readers s rs') starts').
       { intros starts' rs' Hr. constructor; cbn; auto. exists tl. split; auto. }
       destruct pc as [|o0|o0 e0].
       * destruct rest as [|ro rest]; [discriminate|].
-        destruct (match s_cache s with Some e => entry_answer e | None => None end) as [e|] eqn:Ec; inversion Es; subst s' o. clear Es.
-        -- (* hit *) cbn [no_stale].
-           assert (Hfe : fresh (s_hist s) (s_completed s) e).
-           { destruct (s_cache s) as [e1|] eqn:Ec1; [|discriminate]. exact (H3 e1 e eq_refl Ec). }
-           rewrite (proj2 (fresh_enough_spec _ _ _) Hfe). cbn [andb].
-           match type of Er with sch_run_gen _ _ ?s' _ = _ => specialize (IH s' starts obs' wmid) end. cbn in IH. apply IH; [|exact Er].
-           apply Hframe. intros j r Hr. destruct (Nat.eq_dec i j) as [<-|Nij].
-           ++ rewrite (nth_error_set_nth_same _ _ _ _ En) in Hr. inversion Hr; subst. exact Hi.
-           ++ rewrite nth_error_set_nth_other in Hr by assumption. exact (H6 j r Hr).
-        -- (* miss *) cbn [no_stale].
-           match type of Er with sch_run_gen _ _ ?s' _ = _ => specialize (IH s' ((i, s_completed s) :: starts) obs' wmid) end. cbn in IH. apply IH; [|exact Er].
-           apply Hframe. intros j r Hr. destruct (Nat.eq_dec i j) as [<-|Nij].
-           ++ rewrite (nth_error_set_nth_same _ _ _ _ En) in Hr. inversion Hr; subst. unfold reader_ok. cbn [fst].
-              exists (s_completed s). rewrite entry_cons_same. split; [reflexivity|lia].
-           ++ rewrite nth_error_set_nth_other in Hr by assumption. specialize (H6 j r Hr).
-              unfold reader_ok in *. rewrite entry_cons_other by assumption. exact H6.
+        assert (Hidle : forall rest' j r, nth_error (set_nth (s_readers s) i (RIdle, rest')) j = Some r -> reader_ok s starts j r).
+        { intros rest' j r Hr. destruct (Nat.eq_dec i j) as [<-|Nij].
+          - rewrite (nth_error_set_nth_same _ _ _ _ En) in Hr. inversion Hr; subst. exact Hi.
+          - rewrite nth_error_set_nth_other in Hr by assumption. exact (H6 j r Hr). }
+        (* the two ways to answer from the cache, and the way to the storage *)
+        assert (Hhit : forall r, fresh (s_hist s) (s_now s) (s_completed s) r ->
+                  sch_run_gen true true xm (set_readers s (set_nth (s_readers s) i (RIdle, rest))) ps = Some obs' ->
+                  no_stale (s_hist s) (s_now s) (s_wprog s) wmid starts (PR i :: ps) (SGetHit (s_completed s) r :: obs') = true).
+        { intros r Hf Er'. cbn [no_stale]. rewrite (proj2 (fresh_enough_spec _ _ _ _) Hf). cbn [andb].
+          match type of Er' with sch_run_gen _ _ _ ?s' _ = _ => specialize (IH s' starts obs' wmid) end. cbn in IH.
+          apply IH; [|apply HX'; [reflexivity|discriminate]|exact Er']. apply Hframe. apply Hidle. }
+        assert (Hmiss : sch_run_gen true true xm (set_readers s (set_nth (s_readers s) i (RMissed ro, rest))) ps = Some obs' ->
+                  no_stale (s_hist s) (s_now s) (s_wprog s) wmid starts (PR i :: ps) (SGetStart (s_completed s) :: obs') = true).
+        { intros Er'. cbn [no_stale].
+          match type of Er' with sch_run_gen _ _ _ ?s' _ = _ => specialize (IH s' ((i, s_completed s) :: starts) obs' wmid) end. cbn in IH.
+          apply IH; [|apply HX'; [reflexivity|discriminate]|exact Er'].
+          apply Hframe. intros j r Hr. destruct (Nat.eq_dec i j) as [<-|Nij].
+          - rewrite (nth_error_set_nth_same _ _ _ _ En) in Hr. inversion Hr; subst. unfold reader_ok. cbn [fst].
+            exists (s_completed s). rewrite entry_cons_same. split; [reflexivity|lia].
+          - rewrite nth_error_set_nth_other in Hr by assumption. specialize (H6 j r Hr).
+            unfold reader_ok in *. rewrite entry_cons_other by assumption. exact H6. }
+        destruct (s_cache s) as [[|v x|]|] eqn:Ec.
+        -- inversion Es; subst s' o. apply Hhit; [|exact Er]. exact (H3 ENeg eq_refl).
+        -- pose proof (H3 _ eq_refl) as Hev. destruct ro.
+           ++ inversion Es; subst s' o. apply Hhit; [|exact Er]. eapply entry_get_fresh; exact Hev.
+           ++ destruct (s_expired (s_now s) x) eqn:Ex.
+              ** (* the expired entry *)
+                 inversion Es; subst s' o. clear Es. cbn [no_stale].
+                 pose proof (entry_expired_fresh _ _ _ _ _ Hev Ex) as Hf.
+                 rewrite (proj2 (fresh_enough_spec _ _ _ _) Hf). cbn [andb].
+                 destruct HX as [HXt|[Hn0 _]].
+                 2:{ exfalso. unfold s_expired in Ex. rewrite Hn0 in Ex. rewrite andb_true_iff, N.ltb_lt, N.leb_le in Ex. lia. }
+                 subst xm.
+                 match type of Er with sch_run_gen _ _ _ ?s' _ = _ => specialize (IH s' starts obs' wmid) end. cbn in IH.
+                 apply IH; [|left; reflexivity|exact Er].
+                 constructor; cbn; auto.
+                 --- exists tl. split; auto.
+                 --- intros e E. inversion E; subst e. exact Hf.
+                 --- discriminate.
+                 --- apply Hidle.
+              ** inversion Es; subst s' o. apply Hhit; [|exact Er]. eapply entry_get_fresh; exact Hev.
+        -- inversion Es; subst s' o. apply Hmiss. exact Er.
+        -- inversion Es; subst s' o. apply Hmiss. exact Er.
       * (* storage read *)
         inversion Es; subst s' o. clear Es. cbn [no_stale].
-        match type of Er with sch_run_gen _ _ ?s' _ = _ => specialize (IH s' starts obs' wmid) end. cbn in IH. apply IH; [|exact Er].
+        match type of Er with sch_run_gen _ _ _ ?s' _ = _ => specialize (IH s' starts obs' wmid) end. cbn in IH.
+        apply IH; [|apply HX'; [reflexivity|discriminate]|exact Er].
         apply Hframe. intros j r Hr. destruct (Nat.eq_dec i j) as [<-|Nij].
         -- rewrite (nth_error_set_nth_same _ _ _ _ En) in Hr. inversion Hr; subst. unfold reader_ok. cbn [fst].
-           destruct Hi as [c [E L]]. exists c. split; auto. rewrite Hh. apply fresh_head. lia.
+           destruct Hi as [c [E L]]. exists c. split; auto. rewrite Hh. apply fresh_head; [lia|apply shows_live].
         -- rewrite nth_error_set_nth_other in Hr by assumption. exact (H6 j r Hr).
       * (* fill + return *)
         inversion Es; subst s' o. clear Es. cbn [no_stale].
         destruct Hi as [c [E L]]. fold (entry_of starts i). rewrite E.
-        rewrite (proj2 (fresh_enough_spec _ _ _) L). cbn [andb].
-        match type of Er with sch_run_gen _ _ ?s' _ = _ => specialize (IH s' (filter (fun e => negb (Nat.eqb (fst e) i)) starts) obs' wmid) end. cbn [s_hist s_wprog] in IH. apply IH; [|exact Er].
+        rewrite (proj2 (fresh_enough_spec _ _ _ _) L). cbn [andb].
+        match type of Er with sch_run_gen _ _ _ ?s' _ = _ => specialize (IH s' (filter (fun e => negb (Nat.eqb (fst e) i)) starts) obs' wmid) end.
+        cbn [s_hist s_wprog s_now set_cr] in IH. apply IH; [|apply HX'; [reflexivity|discriminate]|exact Er].
         assert (Hfill : forall c', reader_fill true o0 e0 (s_cache s) = Some c' ->
-                          (s_cache s = Some c') \/ (s_cache s = None /\ forall r, entry_answer c' = Some r -> r = e0)).
+                          (s_cache s = Some c') \/
+                          (s_cache s = None /\ (c' = ENeg /\ e0 = None \/ c' = EBig \/ exists v, c' = EVal v 0 /\ e0 = Some v))).
         { intros c' Hc. unfold reader_fill in Hc. rewrite flag_fill_guarded, flag_ttlget_guarded in Hc.
           unfold fill_if_absent, set_val in Hc.
           destruct o0, e0 as [v0|], (s_cache s); try destruct (big_val v0); inversion Hc; auto;
-            right; (split; [reflexivity|]); intros r A; cbn in A; congruence. }
-        constructor; cbn [s_hist s_store s_cache s_wpc s_wprog s_completed s_started s_readers].
+            right; (split; [reflexivity|]); eauto. }
+        constructor; cbn [s_hist s_store s_cache s_wpc s_wprog s_completed s_started s_readers s_now set_cr].
         -- exists tl. split; auto.
         -- exact H2.
-        -- intros e' r Hc A. destruct (Hfill e' Hc) as [Hc'|[Hc' Hr]]; [eapply H3; eauto|].
-           rewrite (Hr r A). rewrite (H4 Hc'). eapply fresh_le; [|exact L]. lia.
+        -- intros e' Hc. destruct (Hfill e' Hc) as [Hc'|[Hc' Hk]]; [apply H3; exact Hc'|].
+           rewrite (H4 Hc'). destruct Hk as [[-> ->]|[->|[v [-> ->]]]]; cbn [entry_inv]; auto.
+           ++ eapply fresh_le; [|exact L]. lia.
+           ++ destruct L as [j [ver [L1 [L2 [L3|[L3 _]]]]]]; [|discriminate].
+              exists j, ver. split; [lia|]. split; auto.
         -- intros Hc. apply H4. unfold reader_fill in Hc. rewrite flag_fill_guarded, flag_ttlget_guarded in Hc.
            unfold fill_if_absent, set_val in Hc.
            destruct o0, e0 as [v0|], (s_cache s); try destruct (big_val v0); try discriminate; reflexivity.
@@ -208,13 +308,38 @@ Proof.
            ++ rewrite (nth_error_set_nth_same _ _ _ _ En) in Hr. inversion Hr; subst. unfold reader_ok. cbn [fst].
               apply entry_filter_same.
            ++ rewrite nth_error_set_nth_other in Hr by assumption. specialize (H6 j r Hr).
-              unfold reader_ok in *. cbn [s_completed s_hist]. rewrite entry_filter_other by assumption. exact H6.
+              unfold reader_ok in *. cbn [s_completed s_hist s_now]. rewrite entry_filter_other by assumption. exact H6.
+    + (* clock *)
+      inversion Es; subst s' o. clear Es. cbn [no_stale].
+      assert (HXt : xm = true).
+      { destruct HX as [HX|[_ HX]]; [exact HX|]. exfalso. apply HX. left. reflexivity. }
+      match type of Er with sch_run_gen _ _ _ ?s' _ = _ => specialize (IH s' starts obs' wmid) end.
+      cbn [s_hist s_wprog s_now] in IH. apply IH; [|left; exact HXt|exact Er].
+      constructor; cbn [s_hist s_store s_cache s_wpc s_wprog s_completed s_started s_readers s_now].
+      * exists tl. split; auto.
+      * exact H2.
+      * intros e E. eapply entry_inv_mono; [|apply H3; exact E]. lia.
+      * exact H4.
+      * intros w E. destruct (H5b w E) as [A B]. split; [exact A|]. destruct (wttl w); lia.
+      * intros j r Hr. specialize (H6 j r Hr). unfold reader_ok in *. cbn [s_completed s_hist s_now].
+        destruct (fst r); auto. destruct H6 as [c [E L]]. exists c. split; auto. eapply fresh_mono; [|exact L]. lia.
 Qed.
 
-(* the code as it is: the flag read from the source says "marker" *)
-Theorem no_stale_after_complete_proved : forall ps s starts obs wmid,
-  Inv s starts -> sch_run s ps = Some obs -> no_stale (s_hist s) (s_wprog s) wmid starts ps obs = true.
-Proof. unfold sch_run. rewrite flag_delete_marker, flag_big_marked. exact no_stale_marker_proved. Qed.
+(* the marker-leaving variant: every schedule, clock advances included *)
+Theorem no_stale_marker_proved : forall ps s starts obs wmid,
+  Inv s starts -> sch_run_gen true true true s ps = Some obs ->
+  no_stale (s_hist s) (s_now s) (s_wprog s) wmid starts ps obs = true.
+Proof. intros ps s starts obs wmid HI. apply no_stale_gen_proved; [exact HI|left; reflexivity]. Qed.
+
+(* the code as it is (flags read from the source; the expired-entry flag whatever it says): schedules
+   during which the clock does not advance *)
+Theorem no_stale_no_clock_proved : forall ps s starts obs wmid,
+  Inv s starts -> s_now s = 0 -> ~ In PC ps -> sch_run s ps = Some obs ->
+  no_stale (s_hist s) (s_now s) (s_wprog s) wmid starts ps obs = true.
+Proof.
+  unfold sch_run. rewrite flag_delete_marker, flag_big_marked. intros ps s starts obs wmid HI Hn Hc.
+  apply no_stale_gen_proved; [exact HI|right; auto].
+Qed.
 
 (* ================= sequential transparency over the reference storage ================= *)
 From V Require Import Storage.SpecLaws.
@@ -468,8 +593,8 @@ Proof.
 Qed.
 
 (* one step of the cache as the code has it now (big values marked, uncacheable keys skipped) *)
-Theorem cache_step_gen_transparent s o : CI s -> op_domain o ->
-  let r := cache_step_gen spec_step true true s o in
+Theorem cache_step_gen_transparent xm s o : CI s -> op_domain o ->
+  let r := cache_step_gen spec_step true true xm s o in
   CI (fst r) /\ c_under (fst r) = fst (spec_step (c_under s) o) /\
   (dont_care (c_under s) o = true \/ snd r = snd (spec_step (c_under s) o)).
 Proof.
@@ -547,6 +672,12 @@ Proof.
     + unfold get, lookup. rewrite Hk. unfold expired, c_expired. cbn [rexp rval].
       destruct ((0 <? ex) && (ex <=? now)) eqn:Ex; cbn [fst snd option_map].
       * split; [|split; [reflexivity|right; reflexivity]].
+        assert (Hgone : lookup now st pk cc = None).
+        { unfold lookup. rewrite Hk. unfold expired. cbn. rewrite Ex. reflexivity. }
+        destruct xm.
+        { (* the absence is cached *)
+          destruct (set_neg_cases c pk cc) as [[Cu E]|[Ck E]]; rewrite E; [exact HCI|].
+          apply (CI_set st st now c pk cc CNeg HCI HK1 Ck); auto. exact (CI_sorted _ HCI). }
         destruct HCI as [Hn He' Hu Hs Hc]. cbn [c_now c_under c_cache fst snd] in *. constructor; cbn [c_now c_under c_cache fst snd]; auto.
         -- intros pk' cc' HK'. destruct (key_dec pk cc pk' cc') as [E|N].
            ++ inversion E; subst. rewrite c_get_del_same by assumption. cbn. intros _. unfold lookup. rewrite Hk.
@@ -580,7 +711,7 @@ Theorem cache_step_transparent s o : CI s -> op_domain o ->
   let r := cache_step spec_step s o in
   CI (fst r) /\ c_under (fst r) = fst (spec_step (c_under s) o) /\
   (dont_care (c_under s) o = true \/ snd r = snd (spec_step (c_under s) o)).
-Proof. unfold cache_step. rewrite flag_big_marked, flag_key_guard. exact (cache_step_gen_transparent s o). Qed.
+Proof. unfold cache_step. rewrite flag_big_marked, flag_key_guard. exact (cache_step_gen_transparent _ s o). Qed.
 
 Fixpoint transparent_run (s : cstate) (ops : list sop) : Prop :=
   match ops with
@@ -704,8 +835,8 @@ Lemma write_keys_op_keys o : is_write o = true -> write_keys o = op_keys o.
 Proof. destruct o; try discriminate; reflexivity. Qed.
 
 (* one step under a fault plan, failed writes marking their keys *)
-Theorem cache_fstep_transparent s fo : CI s -> op_domain (snd fo) ->
-  let r := cache_fstep spec_step true true true s fo in
+Theorem cache_fstep_transparent xm s fo : CI s -> op_domain (snd fo) ->
+  let r := cache_fstep spec_step true true xm true s fo in
   CI (fst r) /\ c_under (fst r) = fst (under_fstep spec_step (c_under s) fo) /\
   (dont_care (c_under s) (snd fo) = true \/ snd r = snd (under_fstep spec_step (c_under s) fo)).
 Proof.
@@ -720,36 +851,36 @@ Proof.
     destruct (failed_under spec_step (st, now) f o) as [st' now'] eqn:Eu. cbn [fst snd] in *. subst now'.
     apply (CI_mark_all st st' now c (write_keys o) HCI); auto.
     rewrite (write_keys_op_keys o W). exact (proj1 Hdom).
-  - exact (cache_step_gen_transparent s o HCI Hdom).
+  - exact (cache_step_gen_transparent xm s o HCI Hdom).
 Qed.
 
 (* with one caching storage per app the second handle is the first *)
 Definition one_cache (s : xst (U:=sstate)) : cstate := mkC (x_under s) (x_c0 s) (x_now s).
 
-Lemma xstep_one_cache bm kg em s x :
-  one_cache (fst (xstep spec_step true bm kg em s x)) = fst (cache_fstep spec_step bm kg em (one_cache s) (xfop x)) /\
-  snd (xstep spec_step true bm kg em s x) = snd (cache_fstep spec_step bm kg em (one_cache s) (xfop x)).
+Lemma xstep_one_cache bm kg xm em s x :
+  one_cache (fst (xstep spec_step true bm kg xm em s x)) = fst (cache_fstep spec_step bm kg xm em (one_cache s) (xfop x)) /\
+  snd (xstep spec_step true bm kg xm em s x) = snd (cache_fstep spec_step bm kg xm em (one_cache s) (xfop x)).
 Proof.
   unfold xstep, one_cache, xfop. rewrite andb_false_r.
-  destruct (cache_fstep spec_step bm kg em (mkC (x_under s) (x_c0 s) (x_now s)) (snd (fst x), snd x)) as [[u c n] out].
+  destruct (cache_fstep spec_step bm kg xm em (mkC (x_under s) (x_c0 s) (x_now s)) (snd (fst x), snd x)) as [[u c n] out].
   cbn. auto.
 Qed.
 
-Fixpoint transparent_xrun (memo bm kg em : bool) (s : xst (U:=sstate)) (xs : list (bool * fault * sop)) : Prop :=
+Fixpoint transparent_xrun (memo bm kg xm em : bool) (s : xst (U:=sstate)) (xs : list (bool * fault * sop)) : Prop :=
   match xs with
   | [] => True
   | x :: r => (dont_care (x_under s) (snd x) = true \/
-               snd (xstep spec_step memo bm kg em s x) = snd (under_fstep spec_step (x_under s) (xfop x)))
-              /\ transparent_xrun memo bm kg em (fst (xstep spec_step memo bm kg em s x)) r
+               snd (xstep spec_step memo bm kg xm em s x) = snd (under_fstep spec_step (x_under s) (xfop x)))
+              /\ transparent_xrun memo bm kg xm em (fst (xstep spec_step memo bm kg xm em s x)) r
   end.
 
-Theorem cache_transparent_x_proved xs : forall s, CI (one_cache s) -> Forall (fun x => op_domain (snd x)) xs ->
-  transparent_xrun true true true true s xs.
+Theorem cache_transparent_x_proved xm xs : forall s, CI (one_cache s) -> Forall (fun x => op_domain (snd x)) xs ->
+  transparent_xrun true true true xm true s xs.
 Proof.
   induction xs as [|x xs IH]; intros s HCI HF; cbn [transparent_xrun]; auto.
   inversion HF as [|? ? Ho Hr]; subst.
-  destruct (xstep_one_cache true true true s x) as [E1 E2].
-  destruct (cache_fstep_transparent (one_cache s) (xfop x) HCI Ho) as [H1 [H2 H3]].
+  destruct (xstep_one_cache true true xm true s x) as [E1 E2].
+  destruct (cache_fstep_transparent xm (one_cache s) (xfop x) HCI Ho) as [H1 [H2 H3]].
   split.
   - rewrite E2. exact H3.
   - apply IH; [|exact Hr]. rewrite E1. exact H1.
@@ -760,7 +891,8 @@ Lemma flag_one_per_app : cache_provider_one_per_app = true. Proof. reflexivity. 
 Lemma flag_write_error_marks : cache_write_error_marks = true. Proof. reflexivity. Qed.
 
 Theorem cache_transparent_x_src_proved xs : forall s, CI (one_cache s) -> Forall (fun x => op_domain (snd x)) xs ->
-  transparent_xrun cache_provider_one_per_app cache_big_values_marked cache_key_guard cache_write_error_marks s xs.
-Proof. rewrite flag_one_per_app, flag_big_marked, flag_key_guard, flag_write_error_marks. exact (cache_transparent_x_proved xs). Qed.
+  transparent_xrun cache_provider_one_per_app cache_big_values_marked cache_key_guard cache_expired_leaves_marker
+                   cache_write_error_marks s xs.
+Proof. rewrite flag_one_per_app, flag_big_marked, flag_key_guard, flag_write_error_marks. exact (cache_transparent_x_proved _ xs). Qed.
 
 End SeqProof.
